@@ -5,6 +5,7 @@ package rfc7523
 
 import (
 	"context"
+	"errors"
 	"strings"
 	"time"
 
@@ -125,6 +126,11 @@ func (c *Handler) PopulateTokenEndpointResponse(ctx context.Context, request fos
 
 	atLifespan := fosite.GetEffectiveLifespan(request.GetClient(), fosite.GrantTypeJWTBearer, fosite.AccessToken, c.Config.GetAccessTokenLifespan(ctx))
 	_, err := c.IssueAccessToken(ctx, atLifespan, request, response)
+	var rfcErr *fosite.RFC6749Error
+	if err != nil && !errors.As(err, &rfcErr) {
+		// a storage failure handed through by IssueAccessToken
+		return errorsx.WithStack(fosite.ErrServerError.WithWrap(err).WithDebug(err.Error()))
+	}
 	return err
 }
 
